@@ -452,7 +452,7 @@ def _subscribe_routers(rec, ctx):
         errors.subscribe(on_next=dl_next, on_completed=dl_done, on_error=lambda e: None)
 
 
-def run_mux(pipe, events, timescale=None, taps='all'):
+def run_mux(pipe, events, timescale=None, taps='all', dl_late=False):
     """Push mux events directly on a MuxObservable (as the repository's own tests do).
     events: [{'t':'c'|'n'|'d', 'k':[idx], 'v':value}] ; the source completes at the end
     unless the last event is {'t':'open'}."""
@@ -472,8 +472,11 @@ def run_mux(pipe, events, timescale=None, taps='all'):
     def on_completed():
         rec.end = {'t': 'completed', 'v': NONE, 'o': rec.nxt()}
     with C.quiet_stdout():
-        _subscribe_routers(rec, ctx)
+        if not dl_late:
+            _subscribe_routers(rec, ctx)
         obs.subscribe(on_next=lambda i: None, on_error=on_error, on_completed=on_completed)
+        if dl_late:      # the dead-letter observable is subscribed after the data pipeline
+            _subscribe_routers(rec, ctx)
         try:
             complete = True
             for ev in events:
@@ -487,6 +490,8 @@ def run_mux(pipe, events, timescale=None, taps='all'):
                     src.on_next(rs.OnNextMux(key, dec(ev['v'])))
                 elif t == 'd':
                     src.on_next(rs.OnCompletedMux(key))
+                elif t == 'e':      # the key fails (an error event of the source itself)
+                    src.on_next(rs.OnErrorMux(key, VerifError(ev.get('code', 9))))
                 elif t == 'open':
                     complete = False
             if complete and rec.end['t'] == 'open':
@@ -551,7 +556,7 @@ def run_multi(pipes, schedule, taps='all'):
     return out
 
 
-def run_src(pipe, items, complete=True, timescale=None, taps='all', root='store'):
+def run_src(pipe, items, complete=True, timescale=None, taps='all', root='store', dl_late=False):
     """A plain source through with_memory_store (root key (0,))."""
     import rx
     import rxsci as rs
@@ -574,8 +579,11 @@ def run_src(pipe, items, complete=True, timescale=None, taps='all', root='store'
     def on_completed():
         rec.end = {'t': 'completed', 'v': NONE, 'o': rec.nxt()}
     with C.quiet_stdout():
-        _subscribe_routers(rec, ctx)
+        if not dl_late:
+            _subscribe_routers(rec, ctx)
         obs.subscribe(on_next=on_next, on_error=on_error, on_completed=on_completed)
+        if dl_late:
+            _subscribe_routers(rec, ctx)
         try:
             for v in items:
                 if rec.end['t'] != 'open':
@@ -587,6 +595,124 @@ def run_src(pipe, items, complete=True, timescale=None, taps='all', root='store'
             rec.end = {'t': 'error', 'v': ['x', -1], 'o': rec.nxt(),
                        'raised': type(e).__name__}
     return _finish(rec, pipe, 'src', {'src': items})
+
+
+def run_plain_shared(pipe, streams, schedule, dispose_first_after=None):
+    """The plain code path with ONE set of operator objects subscribed by several sources
+    at the same time (operators are factories: every subscription has its own state).
+    streams: list of item lists; schedule: order in which the streams push their next item
+    (stream indices).  dispose_first_after: dispose subscription 0 after that many of its
+    items (it then never completes).  Returns one run_plain-like result per stream."""
+    from rx.subject import Subject
+    ctx = {'routers': []}
+    ops = build(pipe, None, [], ctx)
+    n = len(streams)
+    subs = [Subject() for _ in range(n)]
+    res = [{'out': [], 'end': 'open', 'err': NONE, 'endstep': 0, 'step': 0} for _ in range(n)]
+    disposables = []
+    with C.quiet_stdout():
+        for i in range(n):
+            def mk(i):
+                def on_next(x):
+                    res[i]['out'].append({'v': enc(x), 's': res[i]['step']})
+
+                def on_error(e):
+                    res[i]['end'] = 'error'
+                    res[i]['err'] = enc(e)
+                    res[i]['errtype'] = type(e).__name__
+                    res[i]['endstep'] = res[i]['step']
+
+                def on_completed():
+                    res[i]['end'] = 'completed'
+                    res[i]['endstep'] = res[i]['step']
+                return on_next, on_error, on_completed
+            a, b, c = mk(i)
+            obs = subs[i].pipe(*ops) if ops else subs[i]
+            disposables.append(obs.subscribe(on_next=a, on_error=b, on_completed=c))
+        pos = [0] * n
+        disposed = set()
+        try:
+            for i in schedule:
+                if i in disposed or pos[i] >= len(streams[i]):
+                    continue
+                res[i]['step'] += 1
+                subs[i].on_next(dec(streams[i][pos[i]]))
+                pos[i] += 1
+                if i == 0 and dispose_first_after is not None and pos[0] == dispose_first_after:
+                    disposables[0].dispose()
+                    disposed.add(0)
+            for i in range(n):
+                if i in disposed:
+                    continue
+                while pos[i] < len(streams[i]):
+                    res[i]['step'] += 1
+                    subs[i].on_next(dec(streams[i][pos[i]]))
+                    pos[i] += 1
+                res[i]['step'] += 1
+                subs[i].on_completed()
+        except Exception as e:
+            for r in res:
+                if r['end'] == 'open':
+                    r['end'] = 'error'
+                    r['err'] = ['x', -1]
+                    r['errtype'] = 'raised:' + type(e).__name__
+    for i in range(n):
+        res[i]['consumed'] = pos[i]
+        res[i]['disposed'] = i in disposed
+    return res
+
+
+def run_plain_late_subscriber(pipe, items, k, dispose_first_at=None):
+    """ONE piped plain observable (subject.pipe(*ops)) with two subscribers: the second one
+    subscribes after k items (and sees items[k:]); optionally the first is disposed after
+    `dispose_first_at` items.  Each subscription must run on its own state.
+    Returns [result of subscriber A, result of subscriber B]."""
+    from rx.subject import Subject
+    ops = build(pipe, None, [], {'routers': []})
+    subj = Subject()
+    obs = subj.pipe(*ops) if ops else subj
+    res = [{'out': [], 'end': 'open', 'err': NONE, 'endstep': 0, 'step': 0, 'disposed': False}
+           for _ in range(2)]
+    disp = [None, None]
+
+    def attach(i):
+        def on_next(x):
+            res[i]['out'].append({'v': enc(x), 's': res[i]['step']})
+
+        def on_error(e):
+            res[i]['end'] = 'error'
+            res[i]['err'] = enc(e)
+            res[i]['errtype'] = type(e).__name__
+            res[i]['endstep'] = res[i]['step']
+
+        def on_completed():
+            res[i]['end'] = 'completed'
+            res[i]['endstep'] = res[i]['step']
+        disp[i] = obs.subscribe(on_next=on_next, on_error=on_error, on_completed=on_completed)
+    with C.quiet_stdout():
+        try:
+            attach(0)
+            for j, v in enumerate(items):
+                if j == k:
+                    attach(1)
+                if dispose_first_at is not None and j == dispose_first_at and not res[0]['disposed']:
+                    disp[0].dispose()
+                    res[0]['disposed'] = True
+                for r in res:
+                    r['step'] += 1
+                subj.on_next(dec(v))
+            if k >= len(items):
+                attach(1)
+            for r in res:
+                r['step'] += 1
+            subj.on_completed()
+        except Exception as e:
+            for r in res:
+                if r['end'] == 'open':
+                    r['end'] = 'error'
+                    r['err'] = ['x', -1]
+                    r['errtype'] = 'raised:' + type(e).__name__
+    return res
 
 
 def run_plain(pipe, items, complete=True):
